@@ -1,7 +1,8 @@
-(* C12: the round trip at full strength -- the directory itself gets its recorded mode
-   (minus the umask) back as well: extractTarDirectory narrows the pre-created base directory
-   to the mode of the archive's root entry at the end of the extraction. *)
-From Oras Require Import Base.Prelude Model.TarRoundTrip Proofs.TarRoundTrip Proofs.TarWalkOrder.
+(* C12: restoreDirModes -- every directory is created owner-writable (mode | 0700) and gets
+   its recorded mode after the last entry; with it the round trip holds at full strength:
+   the directory itself included, setuid/setgid/sticky directories included, and without any
+   directory being read-only while its entries are created. *)
+From Oras Require Import Base.Prelude Model.TarRoundTrip Proofs.TarRoundTrip Proofs.TarWalkOrder Proofs.TarModeSweep.
 
 (* ---------- every entry of a subtree is named below the subtree ---------- *)
 Lemma entries_names pre repro : forall t rel,
@@ -17,93 +18,195 @@ Proof.
     rewrite E, <- app_assoc. reflexivity.
 Qed.
 
-Lemma base_mode_below pre rel : rel <> [] -> forall es acc,
-  Forall (fun e => exists p, e_name e = pre ++ rel ++ p) es -> base_mode pre acc es = acc.
+Lemma final_ok umask preserve m cur :
+  m <= 4095 -> (preserve = false -> umask <= 511) ->
+  cur = mid_dir_mode umask m \/ cur = N.ldiff 511 umask ->
+  final_dir_mode preserve cur m = restored_mode umask preserve m.
 Proof.
-  intros Hne. induction es as [|e es IH]; intros acc HF; simpl; [reflexivity|].
-  inversion HF as [|? ? [p E] HF']; subst. rewrite E, strip_prefix_app.
-  destruct rel as [|x rel]; [contradiction|]. simpl.
-  destruct (e_kind e); now apply IH.
+  intros Hm Hu Hc. unfold final_dir_mode, restored_mode. destruct preserve.
+  - unfold chmod_mode, file_create_bits. change 4095 with (N.ones 12).
+    apply land_small. change (2 ^ 12) with 4096. lia.
+  - destruct (narrow_ok umask m Hm (Hu eq_refl)) as [H1 H2]. destruct Hc as [-> | ->]; assumption.
 Qed.
 
-Lemma base_mode_children pre repro acc : forall ch,
-  base_mode pre acc (flat_map (fun nc => entries pre repro ([] ++ [fst nc]) (snd nc)) ch) = acc.
+(* ---------- restoreDirModes as a lookup ---------- *)
+Fixpoint last_dir_mode (pre p : path) (es : list entry) : option N :=
+  match es with
+  | [] => None
+  | e :: es' =>
+      match last_dir_mode pre p es' with
+      | Some m => Some m
+      | None =>
+          match e_kind e, strip_prefix pre (e_name e) with
+          | EDir, Some rel => if path_eqb rel p then Some (e_mode e) else None
+          | _, _ => None
+          end
+      end
+  end.
+
+Lemma finish_step_other pre preserve f0 acc e p :
+  (forall cur, fs_lookup f0 p <> Some (NDir cur)) ->
+  fs_lookup (finish_step pre preserve f0 acc e) p = fs_lookup acc p.
 Proof.
-  induction ch as [|nc ch IH]; simpl; [reflexivity|].
-  assert (forall a b0 acc0, base_mode pre acc0 (a ++ b0) = base_mode pre (base_mode pre acc0 a) b0) as Happ.
-  { induction a as [|e a IHa]; intros b0 acc0; simpl; [reflexivity|].
-    destruct (e_kind e), (strip_prefix pre (e_name e)) as [[|? ?]|]; apply IHa. }
-  rewrite Happ.
-  rewrite (base_mode_below pre [fst nc] ltac:(discriminate) (entries pre repro [fst nc] (snd nc)) acc
-             (entries_names pre repro (snd nc) [fst nc])).
-  exact IH.
+  intro Hp. unfold finish_step.
+  destruct (e_kind e); try reflexivity.
+  destruct (strip_prefix pre (e_name e)) as [rel|]; [|reflexivity].
+  destruct (fs_lookup f0 rel) as [[| cur |]|] eqn:E; try reflexivity.
+  rewrite lookup_set. destruct (path_eqb rel p) eqn:Ep; [|reflexivity].
+  apply path_eqb_spec in Ep. subst. exfalso. exact (Hp cur E).
 Qed.
 
-Lemma base_mode_dir pre repro m mt ch :
-  base_mode pre None (entries pre repro [] (Dir m mt ch)) = Some m.
-Proof. simpl. rewrite strip_prefix_app. apply base_mode_children. Qed.
-
-(* ---------- narrowing the pre-created directory = creating it with the recorded mode ---------- *)
-Definition N_range (k : nat) : list N := map N.of_nat (seq 0 k).
-
-Lemma N_range_in x k : x < N.of_nat k -> In x (N_range k).
+Lemma finish_lookup pre preserve f0 : forall es acc p,
+  fs_lookup (fold_left (finish_step pre preserve f0) es acc) p =
+  match last_dir_mode pre p es, fs_lookup f0 p with
+  | Some m, Some (NDir cur) => Some (NDir (final_dir_mode preserve cur m))
+  | _, _ => fs_lookup acc p
+  end.
 Proof.
-  intro Hx. unfold N_range. apply in_map_iff. exists (N.to_nat x). split; [apply N2Nat.id|].
-  apply in_seq. lia.
+  induction es as [|e es IH]; intros acc p; simpl.
+  - destruct (fs_lookup f0 p) as [[]|]; reflexivity.
+  - rewrite IH. destruct (last_dir_mode pre p es) as [m|].
+    + destruct (fs_lookup f0 p) as [[c m0|cur|g]|] eqn:E; try reflexivity;
+        apply finish_step_other; intros cur' E'; rewrite E in E'; discriminate.
+    + unfold finish_step.
+      destruct (e_kind e) eqn:Ek; try (destruct (fs_lookup f0 p) as [[]|]; reflexivity).
+      destruct (strip_prefix pre (e_name e)) as [rel|] eqn:Es;
+        [|destruct (fs_lookup f0 p) as [[]|]; reflexivity].
+      destruct (path_eqb rel p) eqn:Ep.
+      * apply path_eqb_spec in Ep. subst rel.
+        destruct (fs_lookup f0 p) as [[c m0|cur|g]|]; try reflexivity. now rewrite lookup_set_same.
+      * assert (fs_lookup match fs_lookup f0 rel with
+                          | Some (NDir cur) => fs_set acc rel (NDir (final_dir_mode preserve cur (e_mode e)))
+                          | _ => acc end p = fs_lookup acc p) as ->.
+        { destruct (fs_lookup f0 rel) as [[| cur |]|]; try reflexivity.
+          rewrite lookup_set, Ep. reflexivity. }
+        destruct (fs_lookup f0 p) as [[]|]; reflexivity.
 Qed.
 
-(* finite sweep: 1024 directory modes x 512 umasks, evaluated by vm_compute *)
-Lemma narrow_sweep :
-  forallb (fun m => forallb (fun u =>
-     narrow_mode (N.ldiff 511 u) m =? N.ldiff m u) (N_range 512)) (N_range 1024) = true.
-Proof. vm_compute. reflexivity. Qed.
+(* ---------- the directory entries of a tree ---------- *)
+Definition dir_mode_of (o : option tree) : option N :=
+  match o with Some (Dir m _ _) => Some m | _ => None end.
 
-Lemma narrow_fresh umask m :
-  m <= 1023 -> umask <= 511 ->
-  narrow_mode (N.ldiff 511 umask) m = N.ldiff m umask.
+Lemma last_dir_mode_app pre p a b0 :
+  last_dir_mode pre p (a ++ b0) =
+  match last_dir_mode pre p b0 with Some m => Some m | None => last_dir_mode pre p a end.
 Proof.
-  intros Hm Hu. pose proof narrow_sweep as Hs.
-  rewrite forallb_forall in Hs. specialize (Hs m (N_range_in m 1024 ltac:(simpl; lia))).
-  rewrite forallb_forall in Hs. specialize (Hs umask (N_range_in umask 512 ltac:(simpl; lia))).
-  now apply N.eqb_eq.
+  induction a as [|e a IH]; simpl.
+  - destruct (last_dir_mode pre p b0); reflexivity.
+  - rewrite IH. destruct (last_dir_mode pre p b0); reflexivity.
+Qed.
+
+Lemma last_dir_mode_none pre q es :
+  Forall (fun e => forall r, strip_prefix pre (e_name e) = Some r -> r <> q) es ->
+  last_dir_mode pre q es = None.
+Proof.
+  induction 1 as [|e es He _ IH]; simpl; [reflexivity|]. rewrite IH.
+  destruct (e_kind e); try reflexivity.
+  destruct (strip_prefix pre (e_name e)) as [r|] eqn:E; [|reflexivity].
+  rewrite (path_eqb_neq r q (He r eq_refl)). reflexivity.
+Qed.
+
+Lemma entries_not_under pre repro t rel q :
+  (forall p, q <> rel ++ p) -> last_dir_mode pre q (entries pre repro rel t) = None.
+Proof.
+  intro Hq. apply last_dir_mode_none.
+  eapply Forall_impl; [|apply entries_names]. intros e [p E] r Hr.
+  rewrite E, strip_prefix_app in Hr. injection Hr as <-. intro Eq. exact (Hq p (eq_sym Eq)).
+Qed.
+
+Lemma children_not_under pre repro rel q : forall l,
+  (forall n p, In n (map fst l) -> q <> rel ++ n :: p) ->
+  last_dir_mode pre q (flat_map (fun nc => entries pre repro (rel ++ [fst nc]) (snd nc)) l) = None.
+Proof.
+  induction l as [|nc l IH]; intro Hq; simpl; [reflexivity|].
+  rewrite last_dir_mode_app, IH by (intros n p Hin; apply Hq; now right).
+  apply entries_not_under. intros p E. rewrite <- app_assoc in E. simpl in E.
+  exact (Hq (fst nc) p (or_introl eq_refl) E).
+Qed.
+
+Lemma existsb_str_in n l : existsb (str_eqb n) l = false -> ~ In n l.
+Proof.
+  intros E Hin. assert (existsb (str_eqb n) l = true) as E'
+    by (apply existsb_exists; exists n; split; [exact Hin|apply str_eqb_refl]).
+  rewrite E in E'. discriminate.
+Qed.
+
+Lemma last_dir_mode_tree pre repro : forall t rel p,
+  wf_treeb t = true ->
+  last_dir_mode pre (rel ++ p) (entries pre repro rel t) = dir_mode_of (tree_get t p).
+Proof.
+  induction t as [c m mt|tg mt|m mt ch IH] using tree_ind'; intros rel p Hwf.
+  - simpl. destruct p; reflexivity.
+  - simpl. destruct p; reflexivity.
+  - simpl in Hwf. apply andb_true_iff in Hwf as [Hnd Hwf].
+    change (entries pre repro rel (Dir m mt ch))
+      with (mkEntry (pre ++ rel) EDir m (hdr_time repro mt) ::
+            flat_map (fun nc => entries pre repro (rel ++ [fst nc]) (snd nc)) ch).
+    simpl last_dir_mode. rewrite strip_prefix_app.
+    destruct p as [|n p].
+    + rewrite app_nil_r, path_eqb_refl.
+      rewrite children_not_under; [reflexivity|].
+      intros n p _. apply app_neq_longer. discriminate.
+    + rewrite (path_eqb_neq rel (rel ++ n :: p)) by (apply app_neq_longer; discriminate).
+      assert (Hch : last_dir_mode pre (rel ++ n :: p)
+                (flat_map (fun nc => entries pre repro (rel ++ [fst nc]) (snd nc)) ch)
+              = match find_child n ch with Some c => dir_mode_of (tree_get c p) | None => None end).
+      { clear m mt. induction ch as [|[n0 c0] l IHl]; [reflexivity|].
+        inversion IH as [|? ? IH0 IHr]; subst. simpl in Hnd, Hwf |- *.
+        apply andb_true_iff in Hnd as [Hn0 Hnd]. apply negb_true_iff in Hn0.
+        apply andb_true_iff in Hwf as [Hw0 Hwf].
+        rewrite last_dir_mode_app. destruct (str_eqb n0 n) eqn:En.
+        - apply str_eqb_spec in En. subst n0.
+          rewrite children_not_under.
+          + specialize (IH0 (rel ++ [n]) p Hw0). rewrite <- app_assoc in IH0. exact IH0.
+          + intros n' p' Hin E. apply app_inv_head in E. injection E as E _. subst n'.
+            exact (existsb_str_in n (map fst l) Hn0 Hin).
+        - rewrite (IHl IHr Hnd Hwf).
+          destruct (find_child n l) as [c|]; [destruct (dir_mode_of (tree_get c p)); [reflexivity|]|];
+            apply entries_not_under; intros p' E; rewrite <- app_assoc in E; simpl in E;
+            apply app_inv_head in E; injection E as E _; subst n0; rewrite str_eqb_refl in En; discriminate. }
+      rewrite Hch. simpl. destruct (find_child n ch) as [c|]; [destruct (dir_mode_of (tree_get c p))|]; reflexivity.
+Qed.
+
+Lemma modes_get : forall p t m mt ch,
+  modes_okb t = true -> tree_get t p = Some (Dir m mt ch) -> m <= 4095.
+Proof.
+  induction p as [|n p IH]; intros t m mt ch Hmo Hg.
+  - simpl in Hg. injection Hg as ->. simpl in Hmo. apply andb_true_iff in Hmo as [Hm _]. now apply N.leb_le.
+  - destruct t as [| |m0 mt0 ch0]; try discriminate. simpl in Hg, Hmo.
+    apply andb_true_iff in Hmo as [_ Hmo].
+    destruct (find_child n ch0) as [c|] eqn:Ec; [|discriminate].
+    eapply IH; [|exact Hg]. exact (find_child_forallb modes_okb n ch0 c Hmo Ec).
 Qed.
 
 (* ---------- the round trip, the directory itself included ---------- *)
 Theorem roundtrip_full pre umask preserve repro T :
-  umask <= 511 ->
-  is_dir T = true -> wf_treeb T = true -> modes_okb T = true -> benign_tree T = true ->
+  (preserve = false -> umask <= 511) ->
+  is_dir T = true -> wf_treeb T = true -> modes_okb T = true -> benign_tree pre T = true ->
   exists f', extract pre umask preserve (entries pre repro [] T) = Ok f' /\
     forall p, fs_lookup f' p = expected umask preserve T p.
 Proof.
   intros Hu Hd Hwf Hmo Hbe.
-  destruct (roundtrip_impl pre umask preserve repro T Hd Hwf Hmo Hbe) as (f' & E & L).
-  unfold extract. rewrite E. eexists. split; [reflexivity|].
-  destruct T as [| |m mt ch]; try discriminate.
-  unfold finish_base. destruct preserve.
-  - intro p. rewrite L. unfold expected_impl. destruct p; reflexivity.
-  - rewrite base_mode_dir, (L []). unfold expected_impl at 1. cbv beta iota.
-    simpl in Hmo. apply andb_true_iff in Hmo as [Hm _]. apply N.leb_le in Hm.
-    intros [|n p].
-    + rewrite lookup_set_same. unfold expected, restored_mode. cbn [tree_get].
-      f_equal. f_equal. apply (narrow_fresh umask m Hm Hu).
-    + rewrite lookup_set_other by discriminate. rewrite L. reflexivity.
-Qed.
-
-(* with PreservePermissions no bound on the umask is needed *)
-Theorem roundtrip_preserve_full pre umask repro T :
-  is_dir T = true -> wf_treeb T = true -> modes_okb T = true -> benign_tree T = true ->
-  exists f', extract pre umask true (entries pre repro [] T) = Ok f' /\
-    forall p, fs_lookup f' p = expected umask true T p.
-Proof.
-  intros Hd Hwf Hmo Hbe.
-  destruct (roundtrip_preserve pre umask repro T Hd Hwf Hmo Hbe) as (f' & E & L).
-  unfold extract. rewrite E. exists f'. split; [reflexivity|exact L].
+  destruct (extract_list_mid pre umask preserve repro T Hd Hwf Hmo Hbe) as (f' & E & L).
+  unfold extract. rewrite E. eexists. split; [reflexivity|]. intro p.
+  unfold finish_dirs. rewrite finish_lookup.
+  pose proof (last_dir_mode_tree pre repro T [] p Hwf) as Hl. simpl in Hl. rewrite Hl, L.
+  unfold expected, expected_mid_top, expected_mid.
+  destruct (tree_get T p) as [[c m mt|tg mt|m mt ch]|] eqn:Eg; simpl.
+  - destruct p; [destruct T; try discriminate; simpl in Eg; discriminate|reflexivity].
+  - destruct p; [destruct T; try discriminate; simpl in Eg; discriminate|reflexivity].
+  - pose proof (modes_get p T m mt ch Hmo Eg) as Hm.
+    destruct p as [|n p].
+    + destruct T as [| |m0 mt0 ch0]; try discriminate. simpl in Eg. injection Eg as -> -> ->.
+      f_equal. f_equal. apply (final_ok umask preserve m _ Hm Hu). now right.
+    + try rewrite Eg. f_equal. f_equal. apply (final_ok umask preserve m _ Hm Hu). now left.
+  - destruct p; [destruct T; discriminate|]. try rewrite Eg. reflexivity.
 Qed.
 
 (* what Store.Add really writes (filepath.Walk sorts every directory) *)
 Theorem roundtrip_walk_full pre umask preserve repro T :
-  umask <= 511 ->
-  is_dir T = true -> wf_treeb T = true -> modes_okb T = true -> benign_tree T = true ->
+  (preserve = false -> umask <= 511) ->
+  is_dir T = true -> wf_treeb T = true -> modes_okb T = true -> benign_tree pre T = true ->
   exists f', extract pre umask preserve (tar_entries pre repro T) = Ok f' /\
     forall p, fs_lookup f' p = expected umask preserve T p.
 Proof.
@@ -116,11 +219,21 @@ Proof.
   - exists f'. split; [exact E|]. intro p. rewrite L. now apply expected_sort.
 Qed.
 
-(* the code before the fix: the directory's own mode was lost without PreservePermissions *)
+(* after the fix the witness of the old root-mode finding restores exactly *)
 Theorem root_mode_fixed_witness :
   exists f', extract [b "d"] 18 false (tar_entries [b "d"] true root_mode_witness) = Ok f' /\
     fs_lookup f' [] = expected 18 false root_mode_witness [].
 Proof. eexists. split; vm_compute; reflexivity. Qed.
+
+(* Before the fix of tarDirectory, a directory added through a symbolic link was archived as
+   what filepath.Walk yields for a root that is a link: the single link entry.  No such
+   archive can be unpacked (a link cannot replace the base directory), whatever the target. *)
+Theorem symlinked_root_prefix_refuted pre umask preserve repro tg mt :
+  forall f, extract pre umask preserve (entries pre repro [] (Link tg mt)) <> Ok f.
+Proof.
+  intro f. unfold extract. simpl. unfold extract_entry. simpl.
+  rewrite strip_prefix_app. simpl. discriminate.
+Qed.
 
 Section Codec.
   Variable digest : Type.
@@ -135,8 +248,8 @@ Section Codec.
   Hypothesis gunz_gz : forall s, gunz (gz s) = Some s.
 
   Theorem unpack_roundtrip_full pre umask preserve repro T :
-    umask <= 511 ->
-    is_dir T = true -> wf_treeb T = true -> modes_okb T = true -> benign_tree T = true ->
+    (preserve = false -> umask <= 511) ->
+    is_dir T = true -> wf_treeb T = true -> modes_okb T = true -> benign_tree pre T = true ->
     exists f', unpack digest H digest_eqb dec gunz umask preserve
                  (dir_descriptor digest H enc gz pre repro T) (dir_blob enc gz pre repro T) = Ok f' /\
       forall p, fs_lookup f' p = expected umask preserve T p.
@@ -150,13 +263,82 @@ Section Codec.
   Qed.
 End Codec.
 
-(* Before the fix of tarDirectory, a directory added through a symbolic link was archived as
-   what filepath.Walk yields for a root that is a link: the single link entry.  No such
-   archive can be unpacked (the base directory is in the way), whatever the target. *)
-Theorem symlinked_root_prefix_refuted pre umask preserve repro tg mt :
-  forall f, extract pre umask preserve (entries pre repro [] (Link tg mt)) <> Ok f.
+(* with PreservePermissions no bound on the umask is needed *)
+Corollary roundtrip_preserve_full pre umask repro T :
+  is_dir T = true -> wf_treeb T = true -> modes_okb T = true -> benign_tree pre T = true ->
+  exists f', extract pre umask true (entries pre repro [] T) = Ok f' /\
+    forall p, fs_lookup f' p = expected umask true T p.
+Proof. apply roundtrip_full. discriminate. Qed.
+
+(* ---------- what [benign_tree] excludes, and that it is needed ---------- *)
+(* a relative link that stays inside but passes through another link of the tree: rejected
+   when the other link is extracted first, accepted when it comes later *)
+Definition through_link_tree (first : string) : tree :=
+  Dir 493 0 [ (b "b", Dir 493 0 [(b "f", File (b "x") 420 0)]);
+              (b first, Link (b "b") 0);
+              (b "c", Link (b first ++ b "/f") 0) ].
+
+Theorem through_link_refuted :
+  let T := through_link_tree "a" in
+  is_dir T = true /\ wf_treeb T = true /\ modes_okb T = true /\ benign_tree [b "d"] T = false /\
+  extract [b "d"] 18 false (tar_entries [b "d"] true T) = Err XSymlinkDir /\
+  (* the same shape with the first link sorted after the second one restores *)
+  (let T' := through_link_tree "z" in
+   benign_tree [b "d"] T' = false /\
+   exists f', extract [b "d"] 18 false (tar_entries [b "d"] true T') = Ok f' /\
+     forall p, In p [[]; [b "b"]; [b "b"; b "f"]; [b "z"]; [b "c"]; [b "nothing"]] ->
+       fs_lookup f' p = expected 18 false T' p).
 Proof.
-  intro f. unfold extract, extract_prefix. simpl. unfold extract_entry. simpl.
-  rewrite strip_prefix_app. simpl.
-  destruct (link_ok (fs_init umask) [] tg); discriminate.
+  vm_compute. repeat split; try reflexivity.
+  eexists. split; [reflexivity|]. intros p Hp.
+  repeat (destruct Hp as [<-|Hp]; [reflexivity|]). destruct Hp.
 Qed.
+
+(* a target that leaves the base and comes back through the base's own name is inside *)
+Example out_and_back_in_accepted :
+  let T := Dir 493 0 [(b "f", File (b "x") 420 0); (b "l", Link (b "../d/f") 0)] in
+  benign_tree [b "d"] T = true /\ benign_tree [b "e"] T = false.
+Proof. vm_compute. split; reflexivity. Qed.
+
+(* a symlink entry replaces an empty directory at its path, not a non-empty one *)
+Example link_replaces_empty_dir :
+  (exists f', extract [b "d"] 18 false
+     [mkEntry [b "d"] EDir 493 0; mkEntry [b "d"; b "x"] EDir 493 0; mkEntry [b "d"; b "x"] (ELnk (b "y")) 511 0] = Ok f' /\
+     fs_lookup f' [b "x"] = Some (NLink (b "y"))) /\
+  extract [b "d"] 18 false
+     [mkEntry [b "d"] EDir 493 0; mkEntry [b "d"; b "x"] EDir 493 0; mkEntry [b "d"; b "x"; b "f"] (EReg []) 420 0;
+      mkEntry [b "d"; b "x"] (ELnk (b "y")) 511 0] = Err XExists.
+Proof. split; [eexists; split|]; vm_compute; reflexivity. Qed.
+
+(* ---------- SkipUnpack: the directory's blob comes back as a file, byte for byte ---------- *)
+From Oras Require Import Generated.GC12 Model.FileAnnotations.
+Section SkipUnpack.
+  Variable digest : Type.
+  Variable H : str -> digest.
+  Variable digest_eqb : digest -> digest -> bool.
+  Variable enc : list entry -> str.
+  Variable dec : str -> option (list entry).
+  Variable gz : str -> str.
+  Variable gunz : str -> option str.
+  Hypothesis digest_eqb_spec : forall a b, digest_eqb a b = true <-> a = b.
+
+  Theorem skipunpack_stores_blob pre umask preserve repro T checksum nm :
+    let d := dir_descriptor digest H enc gz pre repro T in
+    let blob := dir_blob enc gz pre repro T in
+    push_named digest H digest_eqb dec gunz true umask preserve (dir_annotations checksum nm) d blob
+    = Ok (inr (NFile blob (N.ldiff 438 umask))).
+  Proof.
+    simpl. unfold push_named.
+    change (need_unpack (dir_annotations checksum nm) true) with false. cbv beta iota.
+    unfold push_file, dir_descriptor, dir_blob. simpl.
+    rewrite (proj2 (digest_eqb_spec _ _) eq_refl), N.eqb_refl. reflexivity.
+  Qed.
+
+  (* and without SkipUnpack the same call unpacks *)
+  Theorem unpack_when_asked pre umask preserve repro T checksum nm :
+    let d := dir_descriptor digest H enc gz pre repro T in
+    let blob := dir_blob enc gz pre repro T in
+    push_named digest H digest_eqb dec gunz false umask preserve (dir_annotations checksum nm) d blob
+    = match unpack digest H digest_eqb dec gunz umask preserve d blob with Ok f => Ok (inl f) | Err e => Err e end.
+  Proof. reflexivity. Qed.
+End SkipUnpack.
